@@ -171,6 +171,23 @@ fn check_damage(w: &World, pre: &format::RawArchive, cx: &Cx, f: &str, d: Dmg, n
                             Some(b) => b.content.is_err() || !b.hash_ok,
                         }
                     };
+                    if touches_block && !touches_hunk {
+                        // per file: restored with other bytes than recorded => an error naming it
+                        if let Ok(want) = pre.file_bytes(e) {
+                            let got = snap.get(&e.apath).and_then(|n| n.content.clone());
+                            let named = r.monitor_errors.iter().any(|m| m.contains(&format!("Apath({:?})", e.apath)));
+                            if got.as_deref() != Some(&want[..]) {
+                                ensure!(
+                                    named,
+                                    format!("C10/file-lost-or-altered-silently/block/{}", d.name()),
+                                    "band {id}: {} did not restore to its recorded content (block {f} damaged by {}) and no reported error names it: {:?}",
+                                    e.apath,
+                                    d.name(),
+                                    r.monitor_errors
+                                );
+                            }
+                        }
+                    }
                     if gone {
                         let what = if touches_hunk { "hunk" } else { "block" };
                         ensure!(
@@ -244,6 +261,11 @@ fn run(case: &Case, cx: &mut Cx) -> CaseResult {
         }
         let mut dmgs: Vec<Dmg> = Dmg::BASIC.to_vec();
         dmgs.extend(case.flips.iter().map(|f| Dmg::Flip(*f)));
+        if class == FileClass::Block {
+            // blocks get extra flips near the end of the file (literal bytes of the last chunk
+            // often still decompress, which is what slips past a missing hash check)
+            dmgs.extend(case.flips.iter().map(|f| Dmg::Flip(0xF000 | (*f >> 4))));
+        }
         for d in dmgs {
             if class == FileClass::Header && d != Dmg::Garbage {
                 continue; // "other than the archive header": only checked for clean failure once
@@ -296,7 +318,7 @@ pub fn prop() -> Prop<Case> {
     Prop {
         id: "C10",
         level: "fault_enumeration",
-        rule: "case = archive from a generated history of <=5 ops (incl. interrupted backups) + 3-7 bit-flip positions; inner domain enumerated: every stored file (heads, tails, hunks, blocks; the archive header only for a clean-failure probe) x {delete, truncate 0, truncate half, garbage of equal length} + the generated bit flips in every file (thorough: all pairs; quick: an evenly spaced third, at most 48 per archive). For each: versions, ls and restore of every band, validate (full, quick), a new backup and its restore must return without panic (listing length bounded by the archive's entry count; per-case watchdog for hangs). In every band whose head still parses and whose restore ran: every file entry of the pre-damage reference listing whose own hunk file and block files are not the damaged file (and, for entries stitched from an older band, whose band's head/tail are not the damaged file) must restore byte- and mtime-exact; every file entry whose hunk or block is, by the independent decoder, now missing or undecodable requires that restore reported an error (deletion of the last hunk of an incomplete band is exempt: indistinguishable from an earlier interruption). After delete/truncate-0 a new backup must succeed and restore the source exactly. Non-trivial inner = the damaged file is referenced by at least one version; inner values distinct by construction",
+        rule: "case = archive from a generated history of <=5 ops (incl. interrupted backups) + 3-7 bit-flip positions; inner domain enumerated: every stored file (heads, tails, hunks, blocks; the archive header only for a clean-failure probe) x {delete, truncate 0, truncate half, garbage of equal length} + the generated bit flips in every file (thorough: all pairs; quick: an evenly spaced third, at most 48 per archive). For each: versions, ls and restore of every band, validate (full, quick), a new backup and its restore must return without panic (listing length bounded by the archive's entry count; per-case watchdog for hangs). In every band whose head still parses and whose restore ran: every file entry of the pre-damage reference listing whose own hunk file and block files are not the damaged file (and, for entries stitched from an older band, whose band's head/tail are not the damaged file) must restore byte- and mtime-exact; every file entry whose hunk or block is, by the independent decoder, now missing or undecodable requires that restore reported an error, and a file whose block was damaged and which does not restore to its recorded content must be named by a reported error (per file, so that an error for one file of a shared block does not excuse silently altered siblings) (deletion of the last hunk of an incomplete band is exempt: indistinguishable from an earlier interruption). After delete/truncate-0 a new backup must succeed and restore the source exactly. Non-trivial inner = the damaged file is referenced by at least one version; inner values distinct by construction",
         assumptions: &[
             "'reported an error' is lenient: Err, Monitor error, or ERROR-level tracing event",
             "hunks altered but still decodable carry only the no-crash obligation",
